@@ -150,7 +150,7 @@ theorem getD_axpy (v : Int) (f : Nat → Int) (j0 : Nat) (val : List Int) (j : N
       rw [this]
 
 /-- the `k` loop over a row, started from any row `val` -/
-theorem foldl_axpy (arow : List (Nat × Int)) (b : Dense) (val : List Int) :
+theorem foldl_axpy (arow : List (Nat × Int)) (b : DenseM) (val : List Int) :
     (arow.foldl (fun val e => axpy e.2 (fun j => dget b e.1 j) 0 val) val).length = val.length
     ∧ ∀ k, k < val.length →
       (arow.foldl (fun val e => axpy e.2 (fun j => dget b e.1 j) 0 val) val).getD k 0
@@ -171,7 +171,7 @@ theorem getD_replicate_zero (n k : Nat) : (List.replicate n (0 : Int)).getD k 0 
   simp only [List.getD_eq_getElem?_getD, List.getElem?_replicate]
   split <;> rfl
 
-theorem dotCsrNdRow_getD (nCol : Nat) (arow : List (Nat × Int)) (b : Dense) (k : Nat) (hk : k < nCol) :
+theorem dotCsrNdRow_getD (nCol : Nat) (arow : List (Nat × Int)) (b : DenseM) (k : Nat) (hk : k < nCol) :
     (dotCsrNdRow nCol arow b).getD k 0 = (arow.map fun e => e.2 * dget b e.1 k).sum := by
   unfold dotCsrNdRow
   have := (foldl_axpy arow b (List.replicate nCol 0)).2 k (by simpa using hk)
@@ -702,7 +702,7 @@ theorem drop_eq_cons {β : Type} (l : List β) (d : Nat) (h : d < l.length) :
     ∃ e rest, l.drop d = e :: rest := ⟨_, _, List.drop_eq_getElem_cons h⟩
 
 /-- with at least one output column the body of the outer loop of `_dot_coo_ndarray` advances `didx1` -/
-theorem cooNdStep_progress (nCols : Nat) (es : List Ent) (x2 : Dense) (didx1 : Nat) (out : Dense)
+theorem cooNdStep_progress (nCols : Nat) (es : List Ent) (x2 : DenseM) (didx1 : Nat) (out : DenseM)
     (hc : 0 < nCols) (hd : didx1 < es.length) : didx1 < (cooNdStep nCols es x2 didx1 out).2 := by
   obtain ⟨m, rfl⟩ : ∃ m, nCols = m + 1 := ⟨nCols - 1, by omega⟩
   obtain ⟨e, rest, he⟩ := drop_eq_cons es didx1 hd
@@ -711,7 +711,7 @@ theorem cooNdStep_progress (nCols : Nat) (es : List Ent) (x2 : Dense) (didx1 : N
   simp only [List.foldl_cons, List.foldl_nil, List.headD_cons]
   exact Nat.lt_add_of_pos_right (spanAcc_pos _ _ _ _)
 
-theorem cooNdSparseStep_progress (nCols : Nat) (es : List Ent) (x2 : Dense) (didx1 : Nat)
+theorem cooNdSparseStep_progress (nCols : Nat) (es : List Ent) (x2 : DenseM) (didx1 : Nat)
     (hc : 0 < nCols) (hd : didx1 < es.length) : didx1 < (cooNdSparseStep nCols es x2 didx1).2 := by
   obtain ⟨m, rfl⟩ : ∃ m, nCols = m + 1 := ⟨nCols - 1, by omega⟩
   obtain ⟨e, rest, he⟩ := drop_eq_cons es didx1 hd
@@ -720,8 +720,8 @@ theorem cooNdSparseStep_progress (nCols : Nat) (es : List Ent) (x2 : Dense) (did
   simp only [List.foldl_cons, List.foldl_nil, List.headD_cons]
   exact Nat.lt_add_of_pos_right (spanAcc_pos _ _ _ _)
 
-theorem cooNdRun_terminates (nCols : Nat) (es : List Ent) (x2 : Dense) (hc : 0 < nCols) :
-    ∀ (fuel didx1 : Nat) (out : Dense), es.length - didx1 < fuel → ∃ r, cooNdRun nCols es x2 fuel didx1 out = some r := by
+theorem cooNdRun_terminates (nCols : Nat) (es : List Ent) (x2 : DenseM) (hc : 0 < nCols) :
+    ∀ (fuel didx1 : Nat) (out : DenseM), es.length - didx1 < fuel → ∃ r, cooNdRun nCols es x2 fuel didx1 out = some r := by
   intro fuel
   induction fuel with
   | zero => intro d out h; omega
@@ -736,7 +736,7 @@ theorem cooNdRun_terminates (nCols : Nat) (es : List Ent) (x2 : Dense) (hc : 0 <
     · simp only [hd, if_false]
       exact ⟨out, rfl⟩
 
-theorem cooNdSparseRun_terminates (nCols : Nat) (es : List Ent) (x2 : Dense) (hc : 0 < nCols) :
+theorem cooNdSparseRun_terminates (nCols : Nat) (es : List Ent) (x2 : DenseM) (hc : 0 < nCols) :
     ∀ (fuel didx1 : Nat) (out : List (Nat × Nat × Int)), es.length - didx1 < fuel →
       ∃ r, cooNdSparseRun nCols es x2 fuel didx1 out = some r := by
   intro fuel
@@ -754,8 +754,8 @@ theorem cooNdSparseRun_terminates (nCols : Nat) (es : List Ent) (x2 : Dense) (hc
       exact ⟨out, rfl⟩
 
 /-- with no output column the outer loop never advances: every amount of fuel runs out -/
-theorem cooNdRun_zero_cols (es : List Ent) (x2 : Dense) :
-    ∀ (fuel didx1 : Nat) (out : Dense), didx1 < es.length → cooNdRun 0 es x2 fuel didx1 out = none := by
+theorem cooNdRun_zero_cols (es : List Ent) (x2 : DenseM) :
+    ∀ (fuel didx1 : Nat) (out : DenseM), didx1 < es.length → cooNdRun 0 es x2 fuel didx1 out = none := by
   intro fuel
   induction fuel with
   | zero => intro d out _; rfl
@@ -765,7 +765,7 @@ theorem cooNdRun_zero_cols (es : List Ent) (x2 : Dense) :
     simp only [hd, if_true]
     exact ih d out hd
 
-theorem cooNdSparseRun_zero_cols (es : List Ent) (x2 : Dense) :
+theorem cooNdSparseRun_zero_cols (es : List Ent) (x2 : DenseM) :
     ∀ (fuel didx1 : Nat) (out : List (Nat × Nat × Int)), didx1 < es.length →
       cooNdSparseRun 0 es x2 fuel didx1 out = none := by
   intro fuel
@@ -1072,7 +1072,7 @@ theorem foldl_count (l : List Nat) (p : Nat → Bool) (c : Nat) :
     by_cases h : p x <;> simp [h] <;> omega
 
 /-- the accumulator pair of one `(i, j)` cell: the sum and the `nonzero` flag -/
-theorem cell_fold (arow : List (Nat × Int)) (b : Dense) (j : Nat) (s0 : Int) (f0 : Bool) :
+theorem cell_fold (arow : List (Nat × Int)) (b : DenseM) (j : Nat) (s0 : Int) (f0 : Bool) :
     arow.foldl (fun (st : Int × Bool) e => (st.1 + e.2 * dget b e.1 j, st.2 || (dget b e.1 j != 0))) (s0, f0)
       = (s0 + (arow.map fun e => e.2 * dget b e.1 j).sum, f0 || arow.any fun e => dget b e.1 j != 0) := by
   induction arow generalizing s0 f0 with
@@ -1093,7 +1093,7 @@ theorem filterMap_if_eq_map_filter {β : Type} (l : List Nat) (p : Nat → Bool)
     · simp [h, ih]
 
 /-- one output row of `_dot_csr_ndarray_sparse` in closed form -/
-theorem dotCsrNdSparseRow_eq (nCol : Nat) (arow : List (Nat × Int)) (b : Dense) :
+theorem dotCsrNdSparseRow_eq (nCol : Nat) (arow : List (Nat × Int)) (b : DenseM) :
     dotCsrNdSparseRow nCol arow b
       = ((List.range nCol).filter fun j => arow.any fun e => dget b e.1 j != 0).map
           fun j => (j, (arow.map fun e => e.2 * dget b e.1 j).sum) := by
@@ -1109,13 +1109,13 @@ theorem dotCsrNdSparseRow_eq (nCol : Nat) (arow : List (Nat × Int)) (b : Dense)
   rw [hfun]
   exact filterMap_if_eq_map_filter _ _ _
 
-theorem hit_eq {A : CSR} (hA : A.WF) (b : Dense) (i j : Nat) :
+theorem hit_eq {A : CSR} (hA : A.WF) (b : DenseM) (i j : Nat) :
     csrNdHit (A.rowIdx i) b j = (A.row i).any fun e => dget b e.1 j != 0 := by
   unfold csrNdHit
   rw [← row_map_fst hA i, List.any_map]
   rfl
 
-theorem csrNdCountNnz_closed (nRow nCol : Nat) (A : CSR) (b : Dense) :
+theorem csrNdCountNnz_closed (nRow nCol : Nat) (A : CSR) (b : DenseM) :
     (csrNdCountNnz nRow nCol A b).1
       = ((List.range nRow).map fun i => (List.range nCol).countP fun j => csrNdHit (A.rowIdx i) b j).sum
     ∧ (csrNdCountNnz nRow nCol A b).2
@@ -1155,7 +1155,7 @@ theorem lookupK_filter_map (n : Nat) (p : Nat → Bool) (g : Nat → Int) (k : N
   simp [List.mem_filter, List.mem_range]
 
 /-- closed form of what `_dot_csr_ndarray_sparse` writes and of the index pointer from its pre-count -/
-theorem dotCsrNdSparse_closed (nRow nCol : Nat) (A : CSR) (b : Dense) (hA : A.WF) :
+theorem dotCsrNdSparse_closed (nRow nCol : Nat) (A : CSR) (b : DenseM) (hA : A.WF) :
     (dotCsrNdSparse nRow nCol A b).indices.zip (dotCsrNdSparse nRow nCol A b).data
       = (List.range nRow).flatMap (fun i => dotCsrNdSparseRow nCol (A.row i) b)
     ∧ (dotCsrNdSparse nRow nCol A b).indptr
